@@ -255,7 +255,8 @@ def check(mod, tier: str, seed: int, *, replay: str | None = None) -> int:
         (EVIDENCE / f"{pid}.json").write_text(json.dumps(ev, indent=1))
         if bad_mc:
             return 2
-        if missing:
+        if missing and not violations:
+            # (with violations the coverage markers may be missing *because* the implementation deviated)
             print(f"MACHINERY-ERROR property={pid} coverage obligations not met: {missing}", file=sys.stderr)
             return 2
         status = "FAIL" if violations else "ok"
